@@ -119,8 +119,9 @@ pub mod verif_std {
 
     // Iterator::max over u32 items (vstd has no specification for it); the iterator argument is
     // not modelled, so the result is only known to be an Option
+    pub uninterp spec fn iter_max_spec<I>(i: I) -> Option<u32>;
     #[verifier::external_body]
-    pub fn verif_iter_max<I: Iterator<Item = u32>>(i: I) -> (r: Option<u32>) { i.max() }
+    pub fn verif_iter_max<I: Iterator<Item = u32>>(i: I) -> (r: Option<u32>) ensures r == iter_max_spec(i) { i.max() }
 
     // rule A2: an iterator argument outside Verus' subset (chain / once / empty adaptors) is
     // replaced by this opaque iterator: nothing is known about what it yields
@@ -143,6 +144,23 @@ pub mod verif_std {
     // `slice.as_ref()` for T: AsRef<[u8]> (no relation between the argument and the bytes is modelled)
     #[verifier::external_body]
     pub fn verif_as_ref<T: AsRef<[u8]>>(t: &T) -> (r: &[u8]) { t.as_ref() }
+
+    // R10: `X.iter().any(c)` / `.all(c)` -> verif_any(&X, c) / verif_all(&X, c); bodies are the original
+    // expressions, contracts are stated over the closure's own contract
+    #[verifier::external_body]
+    pub fn verif_any<T, F: Fn(&T) -> bool>(v: &[T], f: F) -> (r: bool)
+        requires forall|i: int| 0 <= i < v@.len() ==> call_requires(f, (&#[trigger] v@[i],))
+        ensures
+            r ==> exists|i: int| 0 <= i < v@.len() && call_ensures(f, (&#[trigger] v@[i],), true),
+            !r ==> forall|i: int| 0 <= i < v@.len() ==> call_ensures(f, (&#[trigger] v@[i],), false),
+    { v.iter().any(f) }
+    #[verifier::external_body]
+    pub fn verif_all<T, F: Fn(&T) -> bool>(v: &[T], f: F) -> (r: bool)
+        requires forall|i: int| 0 <= i < v@.len() ==> call_requires(f, (&#[trigger] v@[i],))
+        ensures
+            r ==> forall|i: int| 0 <= i < v@.len() ==> call_ensures(f, (&#[trigger] v@[i],), true),
+            !r ==> exists|i: int| 0 <= i < v@.len() && call_ensures(f, (&#[trigger] v@[i],), false),
+    { v.iter().all(f) }
 
     pub broadcast proof fn arr_ext<const N: usize>(a: [u8; N], b: [u8; N])
         ensures #[trigger] a@ == #[trigger] b@ ==> a == b
